@@ -8,6 +8,7 @@ CONSTANTS
   MaxLen = 3
   MinExport = 1
   Lit <- MCLit
+  LitDev <- MCLitDev
   Refs <- MCRefs
   Envs <- MCEnvs
 SPECIFICATION Spec
